@@ -39,6 +39,8 @@ def same_graph_state(g):
 class Graph_add_node:
     sig = {"self": "Graph", "node": "Node"}
     properties = ["C16", "C15"]
+    modular = True
+    modifies = ["self._nodes", "self._node_labels"]
     requires = lambda self, node: wf_graph(self)
     ensures = {
         "wf": lambda self, node: wf_graph(self),
@@ -210,6 +212,8 @@ class Graph_remove_node:
 class Graph_remove_edge:
     sig = {"self": "Graph", "edge": "Edge"}
     properties = ["C16", "C15"]
+    modular = True
+    modifies = ["self._edges"]
     requires = lambda self, edge: wf_graph(self)
     ensures = {
         "wf": lambda self, edge: wf_graph(self),
@@ -250,6 +254,8 @@ def nodes_added(g, nodes, upto):
 class Graph_add_edge:
     sig = {"self": "Graph", "edge": "Edge"}
     properties = ["C16", "C15"]
+    modular = True
+    modifies = ["self._nodes", "self._node_labels", "self._edges", "self._edge_labels"]
     requires = lambda self, edge: wf_graph(self)
     loops = {0: lambda self, edge, _i: add_loop_inv(self, edge.nodes, _i) and not nodes_conflict_old(self, edge.nodes)}
     ensures = {
